@@ -7,7 +7,7 @@ objects and handed to the model, whose entry points (proved independent of the i
 contents, Properties/C09.lean) must predict the implementation's result."""
 from __future__ import annotations
 
-from .. import wire, gen, common, histories as H
+from .. import pristine, wire, gen, common, histories as H
 from ..core import call, sm, X, Report, write_evidence
 from ..engine import NumCase, judge_numeric
 
@@ -56,6 +56,10 @@ def gen_cases(rng, tier: str) -> list[dict]:
             pool4 = H.offender_pool(rng)
             cases.append({"origin": "offender", "pool": H.pool_to_wire(pool4),
                           "ops": H.repeated_simplification(rng, pool4)[: 14] + H.random_ops(rng, pool4, 4)})
+        if h % 3 == 0:
+            tw = H.int_float_twins(rng)
+            if tw:
+                cases.append({"origin": "int-float-twins", "pool": H.pool_to_wire(tw[0]), "ops": tw[1]})
         if h % 4 == 1:
             pool7 = H.float_pool(H.nested_pool(rng))
             for ops in H.sharing_prefixes(rng, pool7):
@@ -115,7 +119,17 @@ def check_cases(cases: list[dict], rep: Report, known: dict) -> None:
                 continue
             if got[0] == "err":
                 rep.count("failing-calls", got[1])
-            if not H.same_result(got, want):
+            differs = not H.same_result(got, want)
+            if not differs and op["op"] not in ("compose", "clone") and (c["origin"] in PRISTINE_ORIGINS or (k + len(c["ops"])) % 7 == 0):
+                # ... and of a never-used copy in a process that has done nothing else (module-level memos)
+                far = pristine.ask(c["pool"] + hist.extra_texts, op, src, before)
+                rep.count("pristine-process", "asked" if far is not None else "unavailable")
+                unjudged = ("timeout", "overflow", "recursion", "memory")
+                if far is not None and not (w1.count or w2.count) and not (far[0] == "err" and (far[1] in unjudged or far[1].startswith("worker:"))) \
+                        and not pristine.same(pristine.canonical(got), far):
+                    differs = True
+                    want = (far[0], (far[2] if far[0] == "ok" else far[1]) + "  [answer of a process that had done nothing else]")
+            if differs:
                 if (w1.count or w2.count) and model_exhausts_budget(c["pool"] + hist.extra_texts, op):
                     rep.known("K4", "result of a simplification that exhausts the 1000-step budget depends on flags left by earlier simplifications",
                               {"ops": [o["op"] for o in done], "failing_op": k, "pool_sizes": [len(t.split()) for t in c["pool"]]})
@@ -133,6 +147,9 @@ def check_cases(cases: list[dict], rep: Report, known: dict) -> None:
         rep.corr_checked += 1
         if nc.verdict == "mismatch":
             rep.corr_break(f"entry point on a DAG with the actual memo contents differs from the heap model: {nc.detail}", nc.info)
+
+
+PRISTINE_ORIGINS = ("int-float-twins", "twins", "sharing")
 
 
 def model_exhausts_budget(pool_texts: list[str], op: dict) -> bool:
